@@ -11,6 +11,15 @@ TRUST = (
 
 # pid -> dict(technique, text, note, design_ref)
 CLAIMED = {
+    "C18": dict(
+        technique="static analysis: path-sensitive gate proof over the CFG (relevant-branch DNF dataflow) with suppression-filter kind inference of counts; interprocedural lifting of sinks to call sites",
+        text="Decides, for every call that can produce or persist fixed text (fix_string / persist_tree / persist_changes outside their owning "
+        "classes), that on every path it is reached only when fix_even_unparsable is set, or the file's UNFILTERED TMP/PRS count is zero, or the "
+        "discard step already ran on the same result and the sink is conditioned on a fixable count; that the discard step keys on the unfiltered "
+        "per-file count and clears every lint error's fixes; that persist_tree self-gates; and that the loop-limit exit returns the saved tree with fixes cleared.",
+        note="Does not decide what lint_fix_parsed does to the tree of an unparsable file when fix_even_unparsable is set, nor Python-level aliasing beyond plain local aliases. " + TRUST,
+        design_ref="DESIGN.md §3 C18",
+    ),
     "C25": dict(
         technique="static analysis: path-spelling kind inference (abstract interpretation over discovery.py) + CFG must-guard + def-use",
         text="Decides that no comparison in file discovery mixes an absolutised path with a caller-spelled path (the exact condition "
